@@ -32,3 +32,46 @@
         assert!(h.is_closed_and_empty(), "work queue left open by drop: idle workers sleep forever");
         assert!(h.steal().is_none());
     }
+
+    // ---------------------------------------------------------------- C12.mt.read: read() over the sequence of decoded units
+    pub(crate) static mut NEXT_CALLS: u32 = 0;
+    /// get_next_uncompressed_chunk by contract (own body: reassembly, C08.order): hands out the decoded units in order,
+    /// then None. Script: unit 0 = [0x61, 0x62], unit 1 = EMPTY (an empty member / unit in the middle), unit 2 = [0x63].
+    pub(crate) fn next_chunk_script<R: Read + Seek>(_s: &mut LZIPReaderMT<R>) -> io::Result<Option<Vec<u8>>> {
+        unsafe {
+            NEXT_CALLS += 1;
+            let mut v = Vec::new();
+            match NEXT_CALLS {
+                1 => { v.push(0x61); v.push(0x62); Ok(Some(v)) }
+                2 => Ok(Some(v)),
+                3 => { v.push(0x63); Ok(Some(v)) }
+                _ => Ok(None),
+            }
+        }
+    }
+    /// read() returns the bytes of the units in order; Ok(0) - which callers take for end of data - is returned only
+    /// after the unit sequence is exhausted, never for an empty unit in the middle; a zero-length read changes nothing.
+    #[kani::proof]
+    #[kani::unwind(6)]
+    #[kani::stub(LZIPReaderMT::spawn_worker_thread, spawn_stub)]
+    #[kani::stub(LZIPReaderMT::get_next_uncompressed_chunk, next_chunk_script)]
+    #[kani::stub(LZIPReaderMT::scan_members, scan_ok)]
+    #[kani::stub(alloc::sync::Arc::drop_slow, vk::arc_leak_stub)]
+    fn c12_mt_read_lzip_empty_unit_in_the_middle() {
+        unsafe { NEXT_CALLS = 0; SPAWNED = 0; }
+        let mut r = core::mem::ManuallyDrop::new(match LZIPReaderMT::new(Cursor::new(&[0u8; 4][..]), 2) { Ok(r) => r, Err(_) => { assert!(false); return; } });
+        let mut out = [0u8; 8];
+        let mut got = 0usize;
+        assert!(matches!(r.read(&mut out[..0]), Ok(0)) && unsafe { NEXT_CALLS } == 0);
+        let mut rounds = 0;
+        while rounds < 4 {
+            match r.read(&mut out[got..got + 2]) {
+                Ok(0) => { assert!(unsafe { NEXT_CALLS } == 4, "end of data reported before the unit sequence was exhausted"); break; }
+                Ok(n) => { got += n; }
+                Err(_) => { assert!(false); }
+            }
+            rounds += 1;
+        }
+        assert!(got == 3 && out[0] == 0x61 && out[1] == 0x62 && out[2] == 0x63);
+        assert!(matches!(r.read(&mut out[..2]), Ok(0)));
+    }
